@@ -34,7 +34,8 @@ ASSUMPTIONS = [
 ]
 
 SCNS = ["raw-bs2", "raw-bool", "runner", "runner3", "runner-df", "harv-jl-overlap",
-        "harv-h5-disjoint", "harv-jl-none", "samp-pkl", "samp-pkl-none"]
+        "harv-h5-disjoint", "harv-jl-none", "harv-mem", "samp-pkl",
+        "samp-pkl-none"]
 # failures whose corrected retry is also made through the very objects (Crop
 # and its farmer) that saw the failure - a long-lived session
 LIVE = ("incomplete", "garbage", "shortres", "overlong", "conflict", "fault")
@@ -58,7 +59,7 @@ def cases(tier, seed):
                 if scn in ("runner", "runner3") or scn.startswith("harv"):
                     # (DataFrame output does not validate the description)
                     fails.append("wrongdesc")
-                if scn.startswith("harv"):
+                if scn.startswith("harv") and scn != "harv-mem":
                     fails.append("conflict")
                 fails.append("fault")
             elif tier == "thorough" and ai:
@@ -129,6 +130,7 @@ class Env:
 
     def reap(self, crop=None, **over):
         crop = crop or self.session()
+        self.sc.live_farmer = crop.farmer
         o = self.opts()
         o.update(over)
         if self.to_df:
